@@ -22,7 +22,7 @@ GROUPS = {
     'arith': ['_mul', '_amul', '_itruediv', '_truediv'],
     'linalg': ['_dot', '_dot_non_UTPM_x', '_dot_non_UTPM_y', '_outer', '_outer_non_utpm_x', '_outer_non_utpm_y',
                '_inv', '_solve', '_solve_non_UTPM_x', '_solve_non_UTPM_A', '_mul_non_UTPM_x', '_diag'],
-    'factor': ['_cholesky', '_qr_rectangular', '_qr_full', '_eigh1'],
+    'factor': ['_cholesky', '_qr_rectangular', '_qr_full', '_eigh1', '_qr'],
 }
 MODULE_LEVEL = {'_black_f_white_fprime', '_eval_slow_generic', '_taylor_polynomials_of_ode_solutions', '_plus_const'}
 RAW = {'_dot_non_UTPM_x': {'x_data'}, '_dot_non_UTPM_y': {'y_data'}, '_outer_non_utpm_x': {'x'},
